@@ -10,7 +10,7 @@ out=seeded/REGRESSION.tsv
 if [ -n "$(git -C /repo status --porcelain)" ]; then echo "/repo not clean, refusing"; exit 2; fi
 for n in $names; do
   prop=$(python3 -c "import json;print(json.load(open('seeded/$n/meta.json'))['property'])")
-  if ! git -C /repo apply seeded/$n/patch.diff 2>/dev/null; then echo -e "$n\t$prop\tPATCH-DOES-NOT-APPLY" | tee -a $out; continue; fi
+  if ! git -C /repo apply /verif/seeded/$n/patch.diff 2>/dev/null; then echo -e "$n\t$prop\tPATCH-DOES-NOT-APPLY" | tee -a $out; continue; fi
   ./check $prop > /tmp/seedregress.$n.log 2>&1; rc=$?
   v=$(grep -m1 '^VIOLATION' /tmp/seedregress.$n.log | sed -E 's/replay=\S+/replay=<path>/')
   git -C /repo checkout -- . ; git -C /repo clean -fdq -- src 2>/dev/null
